@@ -190,21 +190,10 @@ func mirTranslate(w *mirWorld, spec MirSpec, roots map[string]bool) (*MirOut, er
 			for i := range out.Checks {
 				out.Checks[i] = renText(out.Checks[i])
 			}
-			// overrides: guard and sources are source-side, destinations are not
+			// overrides: condition and source are source-side, the destination is not
 			for i := range out.Overrides {
-				o := out.Overrides[i]
-				parts := strings.SplitN(o, " [E ", 2)
-				if len(parts) == 2 {
-					ents := strings.Split(parts[1], "; E ")
-					for k, e := range ents {
-						// E dst [ops] src : rename only after the ops list
-						idx := strings.LastIndex(e, "] [")
-						if idx > 0 {
-							ents[k] = e[:idx+2] + renText(e[idx+2:])
-						}
-					}
-					out.Overrides[i] = renText(parts[0]) + " [E " + strings.Join(ents, "; E ")
-				}
+				out.Overrides[i].Cond = renText(out.Overrides[i].Cond)
+				out.Overrides[i].Entry.Src = renPath(out.Overrides[i].Entry.Src)
 			}
 		}
 	}
@@ -368,7 +357,7 @@ func emitMirror(sb *strings.Builder, o *MirOut, names *[]string) {
 		if i > 0 {
 			sb.WriteString(";")
 		}
-		sb.WriteString("\n    " + ov)
+		sb.WriteString("\n    O " + ov.Cond + " (" + cdCoqEntry(ov.Entry) + ")")
 	}
 	sb.WriteString("].\n")
 	*names = append(*names, cdIdent(o.Spec.Name))
